@@ -29,6 +29,9 @@ def configs(tier, seed):
       i += 1
       for st in sts:
         cfgs.append(dict(name='max%d/fc%d/%s' % (mx, fc, st), max=mx, fc=fc, strategy=st))
+      # datapoints entering through the daemon's pipeline (service.setupPipeline(['write'])), tagged series spelled in
+      # whatever order / syntax the client likes: a re-sent datapoint is an update whatever its spelling
+      cfgs.append(dict(name='max%d/fc%d/pipeline-%s' % (mx, fc, sts[0]), max=mx, fc=fc, strategy=sts[0], pipeline=True))
   # the same limits configured through a per-instance section ([cache:b]) overriding other values in [cache]
   for (mx, fc, base) in ((3, True, dict(MAX_CACHE_SIZE=50, USE_FLOW_CONTROL=False)), (4, False, dict(MAX_CACHE_SIZE=4, USE_FLOW_CONTROL=True)),
                          (2, True, dict()), (5, False, dict(MAX_CACHE_SIZE='inf'))):
@@ -36,9 +39,28 @@ def configs(tier, seed):
   return cfgs
 
 
-def gen_history(r, mx):
+SPELLINGS = [['disk.used;dc=ams;host=web1', 'disk.used;host=web1;dc=ams', 'disk.used{host="web1",dc="ams"}'],
+             ['cpu;core=0;mode=idle', 'cpu;mode=idle;core=0', 'cpu{mode="idle",core="0"}', 'cpu{core="0",mode="idle"}'],
+             ['plain.metric'], ['t;a=1', 't{a="1"}']]
+
+
+def gen_history(r, mx, tagged=False):
   nm = r.randint(1, 4)
   metrics = ['m%d' % i for i in range(nm)]
+  if tagged:
+    ops = []
+    fams = r.sample(SPELLINGS, r.randint(1, 3))
+    for _ in range(min(mx + r.randint(2, 8), 40)):
+      c = r.random()
+      if c < 0.25 and ops:
+        prev = r.choice(ops)
+        fam = next((f for f in SPELLINGS if prev[1] in f), None) or [prev[1], prev[1].replace(';z=1;a=2', ';a=2;z=1')]
+        ops.append(('store', r.choice(fam), prev[2]))        # the same series and timestamp again, spelled anyhow
+      elif c < 0.35:
+        ops.append(('store', 'new%d;z=1;a=2' % len(ops), 100))
+      else:
+        ops.append(('store', r.choice(r.choice(fams)), 100 + r.randrange(0, mx + 2)))
+    return ops, r.randint(0, 3)
   n = min(mx + r.randint(2, 8), 50)
   ops = []
   for _ in range(n):
@@ -104,7 +126,8 @@ def run_config(cfg, res):
     ns = boot.boot('carbon-cache', base, instance=cfg['instance'], instance_conf=over or {'MAX_CACHE_SIZE': cfg['max']})
   else:
     ns = boot.boot('carbon-cache', {'CACHE_WRITE_STRATEGY': cfg['strategy'], 'MAX_CACHE_SIZE': cfg['max'], 'USE_FLOW_CONTROL': cfg['fc']})
-  world = cachesim.World(ns)
+  world = cachesim.World(ns, full_pipeline=bool(cfg.get('pipeline')))
+  world.store_through_pipeline = bool(cfg.get('pipeline'))
   exp_hard = cfg['max'] * 1.05 if cfg['fc'] else cfg['max']
   if abs(world.hard_max - exp_hard) > 1e-9:
     res.violation('derived-limit', 'CACHE_SIZE_HARD_MAX is %r for MAX_CACHE_SIZE=%d flow control %s (statement: MAX, or 105%% of it under flow control)' % (world.hard_max, cfg['max'], cfg['fc']))
@@ -112,7 +135,7 @@ def run_config(cfg, res):
   label = 'fc%d' % cfg['fc']
   nh = 3 if cfg['tier'] == 'quick' else 8
   for i in range(nh):
-    ops, ndr = gen_history(r, cfg['max'])
+    ops, ndr = gen_history(r, cfg['max'], tagged=bool(cfg.get('pipeline')))
     seen = set()
     hk = hash(repr(ops))
 
